@@ -468,8 +468,10 @@ class Check:
         ev = {"property_id": self.pid, "tier": self.tier, "seed": int(self.seed), "level": level, "coverage": cov,
               "assumptions": (assumptions or []) + self.assumptions, "wall_s": round(time.time() - self.t0, 2),
               "violations": len(self.violations)}
-        EVID.mkdir(exist_ok=True)
-        (EVID / (self.pid + ".json")).write_text(json.dumps(ev, indent=1, default=str) + "\n")
+        # extension checks (ids X..: specification coverage beyond the listed properties) keep their evidence apart
+        evid = EVID if not self.pid.startswith("X") else VERIF / "evidence_ext"
+        evid.mkdir(exist_ok=True)
+        (evid / (self.pid + ".json")).write_text(json.dumps(ev, indent=1, default=str) + "\n")
         for h in self.known_hits:
             log(h)
         if self.violations:
